@@ -815,6 +815,8 @@ impl CatalogPersistence {
 
         let mut file = File::create(path)
             .wrap_err_with(|| format!("failed to create catalog file at '{}'", path.display()))?;
+        #[cfg(kahflane_turdb_verif)]
+        crate::verif_hooks::io_event("cat_create", &path.to_string_lossy(), 0, 0);
 
         let mut header = vec![0u8; HEADER_SIZE];
 
@@ -843,12 +845,18 @@ impl CatalogPersistence {
 
         file.write_all(&header)
             .wrap_err("failed to write file header")?;
+        #[cfg(kahflane_turdb_verif)]
+        crate::verif_hooks::io_event("cat_header", &path.to_string_lossy(), HEADER_SIZE as u64, 0);
 
         file.write_all(&catalog_bytes)
             .wrap_err("failed to write catalog data")?;
+        #[cfg(kahflane_turdb_verif)]
+        crate::verif_hooks::io_event("cat_body", &path.to_string_lossy(), catalog_length, 0);
 
         file.sync_all()
             .wrap_err("failed to sync catalog file to disk")?;
+        #[cfg(kahflane_turdb_verif)]
+        crate::verif_hooks::io_event("cat_sync", &path.to_string_lossy(), 0, 0);
 
         Ok(())
     }
